@@ -173,8 +173,22 @@ class PlanRun:
         """One user-thread action.  kind: submit | dup | resubmit"""
         eng = self.eng
         spec = self.plan["jobs"][j]
-        t, init = self.build(j, 0)
         key = f"j{j}"
+        if kind == "dup":
+            # an equal task submitted again is a duplicate only while the latest submission has not failed: after a
+            # failure (its own, or a cancellation because a dependency failed again) the API defines it as a re-submission
+            from experimaestro.scheduler.base import JobState
+
+            objs = eng.jobs.get(key, [])
+            if objs and objs[-1].state == JobState.ERROR:
+                fut = getattr(objs[-1], "_future", None)
+                if fut is not None and fut.done():
+                    kind = "resubmit"
+                    eng.events.append(("dup-is-resubmission", key, eng.step))
+                else:
+                    eng.events.append(("dup-skipped", key, eng.step))  # failed but not finished yet: neither case applies
+                    return
+        t, init = self.build(j, 0)
         before = len(self.xp.scheduler.jobs)
         rec = {"key": key, "kind": kind, "step": eng.step}
         if kind != "dup":
